@@ -248,3 +248,6 @@ fn test_trim_byte_right() {
     assert_eq!(trim_byte_right(b' ', b"hello"), b"hello");
     assert_eq!(trim_byte_right(b' ', b""), b"");
 }
+
+#[cfg(kani)]
+include!(concat!(env!("ATTOHTTPC_VERIF_HARNESS"), "/buffers.rs"));
